@@ -3,6 +3,8 @@ import math
 
 import numpy as np
 
+PI = math.pi
+
 from .. import gen
 from ..common import Check, ang_close, case_rng, close, enc_m, enc_optv, enc_v, import_ws, parse_resp, pmap, run_driver
 
@@ -68,6 +70,24 @@ def make_case(args):
             E[i, int(np.where(np.asarray(dirs) == 30.0)[0][0])] = 2.0 * w
             E[i, int(np.where(np.asarray(dirs) == 270.0)[0][0])] = 1.0 * w
         kind = "dm_cardinal"
+    if mode == "scale" and nf >= 4 and rng.random() < 0.2:
+        if rng.random() < 0.5:
+            # a very broad peak: the maximum exceeds its neighbours by a few parts in 1e8 (far above float64 rounding, so the
+            # peak bin — and every period and shape parameter — is the same at every energy level)
+            ip = rng.randrange(1, nf - 1)
+            prof = np.array([1.0 / (1.0 + 0.5 * abs(i - ip)) for i in range(nf)])
+            prof[ip - 1] = prof[ip + 1] = prof[ip] * (1 - rng.choice([5e-8, 2e-7]))
+            w = np.array([1.0 + 0.5 * math.cos(2 * PI * j / nd) for j in range(nd)])
+            E = prof[:, None] * w[None, :]
+            kind, dtype = "broad_peak", "float64"
+        else:
+            # nearly monochromatic: all energy in one frequency bin but for a vanishing amount in another (the width
+            # radicand 1 − m2²/(m0·m4) rounds to a few ulp either side of zero)
+            E = np.zeros((nf, nd))
+            i1, i2 = rng.sample(range(nf), 2)
+            E[i1, :] = [1.0 + 0.25 * (j % 3) for j in range(nd)]
+            E[i2, rng.randrange(nd)] = 1e-25
+            kind, dtype = "near_mono", "float64"
     if mode == "scaleby" and rng.random() < 0.35:
         # valid spectrum without an interior peak: tp/dpm are NaN, so a tp/dpm range is never met
         E = np.array([[(nf - i) * (1 + (j % 3)) for j in range(nd)] for i in range(nf)], dtype=float)
